@@ -43,6 +43,10 @@ ColourOf(c) ==
                          IN <<byte(1), byte(2), byte(3)>> \o (IF Len(e) = 8 THEN <<byte(4), byte(4)>> ELSE <<255, 255>>)
     [] c.kind = "tuple" -> <<c.v[1], c.v[2], c.v[3]>> \o (IF Len(c.v) = 4 THEN <<c.v[4], c.v[4]>> ELSE <<255, 255>>)
     [] c.kind = "tuplef" -> <<c.v[1], c.v[2], c.v[3], (c.alpha_pm * 255) \div 1000, (c.alpha_pm * 255 + 999) \div 1000>>
+    \* EPS / PDF only: a tuple with float components, each an intensity 0.0 .. 1.0 (an int component is c / 255): c.mb in 1/255 units x 1000
+    [] c.kind = "unit" -> <<c.mb[1] \div 1000, c.mb[2] \div 1000, c.mb[3] \div 1000, 255, 255>>
+\* the wanted colour in 1/255 units x 1000 (the resolution the EPS / PDF clauses compare with)
+Milli(c) == IF c.kind = "unit" THEN c.mb ELSE LET w == ColourOf(c) IN <<w[1] * 1000, w[2] * 1000, w[3] * 1000>>
 \* an observed RGBA pixel shows the wanted colour (fully transparent pixels have no colour)
 Shows(got, want) == IF want[5] = 0 THEN got[4] = 0
                     ELSE got[1] = want[1] /\ got[2] = want[2] /\ got[3] = want[3] /\ got[4] >= want[4] /\ got[4] <= want[5]
